@@ -106,6 +106,8 @@ impl POp {
 pub struct Program {
     pub sites: Vec<Site>,
     pub ops: Vec<POp>,
+    /// The input lines do not form a program (e.g. a shrunk case lost a site declaration).
+    pub malformed: bool,
 }
 
 impl Program {
@@ -124,7 +126,10 @@ impl Program {
             match t.next() {
                 Some("site") => {
                     let k: usize = t.num().expect("site index");
-                    assert_eq!(k, p.sites.len(), "sites must be declared in order");
+                    if k != p.sites.len() {
+                        p.malformed = true;
+                        continue;
+                    }
                     p.sites.push(Site::parse(&mut t).expect("site"));
                 }
                 Some("p") => p.ops.push(POp::parse(&mut t).expect("program op")),
@@ -164,6 +169,9 @@ pub enum FeCall {
 /// Runs the program against `dispatch`; returns the log of subscriber calls made.
 pub fn run(dispatch: &Dispatch, prog: &Program) -> Vec<FeCall> {
     let metas: Vec<&'static Metadata<'static>> = prog.sites.iter().map(dynsite::metadata_for).collect();
+    if prog.malformed {
+        return vec![];
+    }
     let mut handles: Vec<Option<(Id, usize)>> = vec![];
     let mut registered: HashSet<usize> = HashSet::new();
     let mut log = vec![];
@@ -431,5 +439,5 @@ pub fn gen_program(rng: &mut Rng, cfg: &GenCfg) -> Program {
             }
         }
     }
-    Program { sites, ops }
+    Program { sites, ops, malformed: false }
 }
